@@ -3,6 +3,7 @@ package main
 import (
 	"fmt"
 	"go/ast"
+	"go/parser"
 	"go/token"
 	"go/types"
 	"os"
@@ -30,6 +31,7 @@ type Prog struct {
 	GoArch  string
 
 	Norm *normStats // what the normalisation did (nil if switched off)
+	Renames *renameResult // declarations renamed back to their pinned names
 	// RenamedAnchors: field anchors that no longer resolve by name and were recognised by type
 	RenamedAnchors []string
 
@@ -63,7 +65,6 @@ func Load(o LoadOpts) (*Prog, error) {
 		Mode:    mode | packages.NeedModule,
 		Dir:     o.Root,
 		Env:     env,
-		Overlay: o.Overlay,
 		Tests:   false,
 	}
 	if o.Tags != "" {
@@ -118,7 +119,66 @@ func Load(o LoadOpts) (*Prog, error) {
 			return nil, fmt.Errorf("package %s has no syntax", need)
 		}
 	}
+	// positive controls are parsed here and joined to their package's syntax trees (they are written
+	// against the pinned names, so they are added only once renames have been undone)
+	var controlFiles []*ast.File
+	controlPkg := map[*ast.File]*packages.Package{}
+	var ovPaths []string
+	for path := range o.Overlay {
+		ovPaths = append(ovPaths, path)
+	}
+	sort.Strings(ovPaths)
+	for _, path := range ovPaths {
+		f, err := parser.ParseFile(p.Fset, path, o.Overlay[path], parser.SkipObjectResolution)
+		if err != nil {
+			return nil, fmt.Errorf("control file %s: %w", path, err)
+		}
+		var owner *packages.Package
+		for _, pk := range p.All {
+			if len(pk.GoFiles) > 0 && filepath.Dir(pk.GoFiles[0]) == filepath.Dir(path) {
+				owner = pk
+			}
+		}
+		if owner == nil {
+			return nil, fmt.Errorf("control file %s: no package in that directory", path)
+		}
+		controlFiles = append(controlFiles, f)
+		controlPkg[f] = owner
+	}
+	addControls := func() {
+		for _, f := range controlFiles {
+			controlPkg[f].Syntax = append(controlPkg[f].Syntax, f)
+		}
+		controlFiles = nil
+	}
+	if o.NoNorm {
+		addControls()
+		if len(o.Overlay) > 0 {
+			if err := retypecheckPackages(p.All, p.Fset, p.isGenerated); err != nil {
+				return nil, err
+			}
+		}
+	}
 	if !o.NoNorm {
+		// renamed unexported declarations get their pinned names back first (renames.go)
+		pinned := loadPinnedDecls()
+		p.Renames = &renameResult{}
+		for short, pk := range p.Pkgs {
+			undoRenames(short, pk, pinned[short], p.isGenerated, p.Renames)
+		}
+		hadControls := len(controlFiles) > 0
+		addControls()
+		if len(p.Renames.Applied) > 0 || hadControls {
+			err := retypecheckPackages(p.All, p.Fset, p.isGenerated)
+			if err != nil && len(p.Renames.Applied) > 0 {
+				// the guessed renames are inconsistent: analyse the tree as written instead
+				p.Renames.Revert()
+				err = retypecheckPackages(p.All, p.Fset, p.isGenerated)
+			}
+			if err != nil {
+				return nil, err
+			}
+		}
 		st, err := normalizePackages(p.All, p.Fset, p.isGenerated)
 		p.Norm = st
 		if err != nil {
